@@ -1,0 +1,20 @@
+//go:build verif
+
+package openssh
+
+// Contracts of the OpenSSH extension helpers (comment-only; read by /verif's verifier under the build tag verif).
+
+// The extension pairs a peer advertises, by the names and version strings of OpenSSH's PROTOCOL file (sections 4.3,
+// 4.4, 4.5, 4.6 of the sftp extensions).
+//@ func ExtensionFSync
+//@   property C19
+//@   ensures result != nil && result.Name == "fsync@openssh.com" && result.Data == "1"
+//@ func ExtensionHardlink
+//@   property C19
+//@   ensures result != nil && result.Name == "hardlink@openssh.com" && result.Data == "1"
+//@ func ExtensionPOSIXRename
+//@   property C19
+//@   ensures result != nil && result.Name == "posix-rename@openssh.com" && result.Data == "1"
+//@ func ExtensionStatVFS
+//@   property C19
+//@   ensures result != nil && result.Name == "statvfs@openssh.com" && result.Data == "2"
